@@ -84,6 +84,54 @@ def zints(s):
     return [int(x) for x in re.findall(r"-?\d+", s)]
 
 
+FILE_CHILD = r"""
+import os, sys, json, time, tempfile, shutil, datetime as dt
+time.tzset()
+from uberjob.stores._file_store import get_modified_time
+from uberjob._transformations.caching import _to_naive_utc_time
+inst = json.load(sys.stdin)
+d = tempfile.mkdtemp(); p = os.path.join(d, 'f'); open(p, 'w').close()
+out = []
+try:
+    for i in inst:
+        os.utime(p, ns=(i * 1000, i * 1000))
+        m = get_modified_time(p)
+        c = _to_naive_utc_time(m)
+        out.append([(c - dt.datetime(1970, 1, 1)) // dt.timedelta(microseconds=1), m.fold, m.tzinfo is None])
+finally:
+    shutil.rmtree(d, ignore_errors=True)
+print(json.dumps({"tzname": list(time.tzname), "out": out}))
+"""
+
+
+def file_mtimes(ctx, zones, tables):
+    """The bundled file stores' get_modified_time (real files, mtimes set with os.utime) must denote the file's instant,
+    also inside the repeated hour of a fall-back: _to_naive_utc_time(get_modified_time(path)) == instant."""
+    import json
+    for z in zones:
+        trs = [x for x, _ in tables[z][1] if x > us_of(dt.datetime(2019, 1, 1, tzinfo=dt.timezone.utc))]
+        inst = []
+        for t in trs:
+            for delta in (-5400, -1800, -1, 0, 1, 1800, 3599, 3600, 5400):
+                inst.append((t // 10 ** 6 + delta) * 10 ** 6)
+        inst += [us_of(dt.datetime(2021, 7, 1, 12, tzinfo=dt.timezone.utc)), us_of(dt.datetime(2021, 1, 15, 3, tzinfo=dt.timezone.utc))]
+        env = core.repo_env()
+        env["TZ"] = z
+        p = subprocess.run([core.PY, "-c", FILE_CHILD], input=json.dumps(inst), env=env, stdout=subprocess.PIPE,
+                           stderr=subprocess.PIPE, text=True, timeout=300)
+        if p.returncode != 0:
+            ctx.broke("C18 file-mtime helper failed for TZ=%s" % z, p.stderr[-1500:])
+            continue
+        rep = json.loads(p.stdout)
+        for i, (conv, fold, naive) in zip(inst, rep["out"]):
+            ctx.case(("file-mtime", z, i))
+            ctx.count("file_mtime_fold", fold)
+            if conv != i:
+                ctx.fail("file-mtime:wrong-instant",
+                         "TZ=%s: a file modified at instant %d us is reported by get_modified_time as a time that the staleness check reads as %d us (off by %d s)" % (z, i, conv, (conv - i) // 10 ** 6),
+                         {"zone": z, "instant_us": i, "converted_us": conv, "fold": fold})
+
+
 def run(ctx):
     core.use_repo()
     rng = ctx.rng
@@ -101,6 +149,7 @@ def run(ctx):
         ctx.broke("C18 needs at least two usable zones", zones)
         return
     ctx.notes["zones"] = {z: len(tables[z][1]) for z in zones}
+    file_mtimes(ctx, zones, tables)
 
     def interesting(z):
         trs = [x for x, _ in tables[z][1]]
